@@ -212,6 +212,11 @@ class Case:
                         gc.collect()       # results can contain reference cycles: only a collection really drops them
                     objs = describe_stack_objs(frame) if frame is not None and c.get("refcounts", True) else []
                     base = [sys.getrefcount(o) for o in objs]
+                    # a probe from inside the running target: the slice names the program's frame; nothing may keep it pinned
+                    pf = tgt.outer if frame is None and isinstance(tgt, stackscope.StackSlice) else None
+                    if pf is not None:
+                        gc.collect()
+                        base_pf = sys.getrefcount(pf)
                     for _ in range(reps):
                         held.append(stackscope.extract(tgt))
                         self.stats["extractions"] += 1
@@ -228,6 +233,14 @@ class Case:
                     if str(held[0]) != str(held[-1]) or str(held[0]) != s_first:
                         self.problems.append(f"point {i} ({label}): two extractions of the unchanged target format differently")
                 del held
+                if pf is not None:
+                    now_pf = sys.getrefcount(pf)
+                    self.stats["frame_refcount_checks"] = self.stats.get("frame_refcount_checks", 0) + 1
+                    if now_pf != base_pf:
+                        self.problems.append(f"point {i} ({label}): right after the extraction results were dropped (no garbage collection yet) the "
+                                             f"reference count of the running program's frame is {now_pf}, baseline {base_pf}: the extraction left "
+                                             f"something behind that pins the frame (and with it the target's locals)")
+                    del pf
                 if objs and frame is not None:
                     dropped = [sys.getrefcount(o) for o in objs]
                     if dropped != base:
@@ -338,6 +351,7 @@ class Case:
         spec = dict(c["spec"])
 
         def behaviour(observe: bool):
+            del chains.LEAF_EVENTS[:]
             ch = chains.build(spec)
             tr: List[Any] = []
             refs = [(f"owner {i} ({type(o).__name__})", weakref.ref(o)) for i, o in enumerate(ch.owners)]
@@ -365,6 +379,7 @@ class Case:
                         stackscope.extract(ch.x)
                 p = chains.throw_path(ch)
                 tr.append(("throw", None if p is None else [(f.f_code.co_name, ln) for f, ln in p]))
+                tr.append(("calls of the leaf's __bool__/__len__", list(chains.LEAF_EVENTS)))
             finally:
                 chains.close(ch)
             del ch
